@@ -246,8 +246,8 @@ void tcpHistory(int depth)
   size_t cur = 0;
   for (int step = 0; step < depth; ++step)
   {
-    int op = mc_choose(15, MC_FREE);
-    static const char *names = "krabixfRdBgouUZ";
+    int op = mc_choose(16, MC_FREE);
+    static const char *names = "krabixfRdBgouUZp";
     w.hist.push_back(names[op]);
     switch (op)
     {
@@ -275,6 +275,13 @@ void tcpHistory(int depth)
       auto r = w.t->connect("127.0.0.1", 9103, TlsMode::None);
       noteConnect(w, r);
       mc_quiesce(2500ull * 1000000ull);
+      break;
+    }
+    case 15: // black hole, NOT waited for: the connect is still pending when the next operation (possibly stop) runs
+    {
+      auto r = w.t->connect("127.0.0.1", 9103, TlsMode::None);
+      noteConnect(w, r);
+      mc_quiesce();
       break;
     }
     case 4: // inbound accept
